@@ -2,7 +2,7 @@
    state it may write.  One line per instruction family; a field not listed is never
    changed by the instruction, whatever the operands. *)
 From Coq Require Import ZArith String List Bool.
-From PushModel Require Import Base.Sx Base.Machine Base.F32 Model.Item Model.GraphT Model.State.
+From PushModel Require Import Base.Sx Base.Machine Base.F32 Model.Item Model.GraphT Model.State Model.InstrBase.
 Import ListNotations.
 Open Scope string_scope.
 
@@ -151,3 +151,16 @@ Fixpoint fp_lookup (t : list (string * mask)) (n : string) : option mask :=
   | [] => None
   | (k, m) :: r => if String.eqb n k then Some m else fp_lookup r n
   end.
+
+(* ---- one interpreter step: EXEC plus the footprint of the item it executes ---- *)
+Definition lit_fld (v : lit) : fld :=
+  match v with
+  | LBool _ => FBool | LInt _ => FInt | LIndex _ _ => FIndex | LFloat _ => FFloat
+  | LBoolVec _ => FBvec | LIntVec _ => FIvec | LFloatVec _ => FFvec
+  end.
+Inductive step_fp (fp : list (string * mask)) : item -> mask -> Prop :=
+| sf_lit v : step_fp fp (ILit v) (W [lit_fld v])                 (* a literal goes to its typed stack *)
+| sf_name n : step_fp fp (IName n) (W [FName; FQuote])           (* NAME stack (or EXEC when bound); the quote flag is cleared *)
+| sf_list l : step_fp fp (IList l) (W [])                        (* unpacked onto EXEC *)
+| sf_instr k m : fp_lookup fp k = Some m -> step_fp fp (IInstr (s2l k)) m
+| sf_unknown n : (forall k, n = s2l k -> fp_lookup fp k = None) -> step_fp fp (IInstr n) (W []).
